@@ -55,6 +55,7 @@ def run_case(case):
     decoy(rng, lambda: WishboneSRAM(size=case["size"], data_width=dw, granularity=gran, writable=case["writable"],
                                     init=[(x ^ 0x5a) & ((1 << dw) - 1) for x in case["init"]]))
     late_init = rng.random() < 0.2
+    depth = case["size"] * gran // dw
     dut = WishboneSRAM(size=case["size"], data_width=dw, granularity=gran,
                        writable=case["writable"], init=() if late_init else init_arg)
     from vmon.simkit import decoy_after
@@ -63,13 +64,46 @@ def run_case(case):
     if late_init:
         dut.init = list(case["init"])      # the image is set through the `init` property after construction
     bus = dut.wb_bus
-    depth = case["size"] * gran // dw
     aw = len(bus.adr)
     (memres, _name, _rng), = list(bus.memory_map.resources())
     mem_data = memres.data
     model = list(case["init"]) + [0] * (depth - len(case["init"]))
-    written = set()          # rows changed (or, read-only, attempted) by a write
     mon = Mon()
+
+    def init_history():
+        """Before the design is built the image may be re-assigned, patched word by word, or an assignment may be
+        refused; the memory must start from exactly what the `init` property reports (checked against a model)."""
+        nonlocal model
+        for _ in range(rng.choice([0, 0, 1, 2, 4])):
+            op = rng.choice(["assign_short", "assign_full", "patch", "refused"])
+            if op in ("assign_short", "assign_full"):
+                n_ = depth if op == "assign_full" else rng.randint(0, depth)
+                img = [rng.getrandbits(dw) for _ in range(min(n_, 300))]
+                dut.init = rng.choice([list, tuple, iter])(img)
+                model = img + [0] * (depth - len(img))
+            elif op == "patch":
+                k_ = rng.randrange(min(depth, 300))
+                v_ = rng.getrandbits(dw)
+                dut.init[k_] = v_
+                model[k_] = v_
+            else:
+                bad = [rng.getrandbits(dw) for _ in range(rng.randint(0, min(depth, 8) - 1))] + ["not-a-number"]
+                try:
+                    dut.init = bad
+                    refused = False
+                except (TypeError, ValueError):
+                    refused = True
+                mon.ok("init_history", refused, "an init image with a non-integer element was accepted")
+            got = list(dut.init)
+            mon.ok("init_history", got == model,
+                   lambda: f"after {op}: the init property reports {got[:8]}..., expected {model[:8]}...")
+            mon.count("init_history_ops")
+
+    if depth <= 1024 and rng.random() < 0.35:
+        mon.run(init_history)
+        if mon.violations:
+            return mon.result(summary={"size": case["size"], "data_width": dw, "granularity": gran})
+    written = set()          # rows changed (or, read-only, attempted) by a write
     full_every = 1 if depth <= 64 else 16
     gmask = (1 << gran) - 1
     style = case["style"]
